@@ -145,7 +145,7 @@ Definition parse_headers (r : raw_hdrs) : hdrs :=
   map (fun nv => (canon_key (fst nv), http_trim (snd nv))) r.
 
 (** Header.Set: replaces all values of the key *)
-Definition set_hdr (k v : string) (h : hdrs) : hdrs := del k h ++ [(k, v)].
+Definition set_hdr (k v : string) (h : hdrs) : hdrs := (del k h ++ [(k, v)])%list.
 
 (* ------------------------------------------------------------------ addresses *)
 
